@@ -46,14 +46,15 @@ def same(a, b, name):
 
 def static_table(chk, ed, tier, rng):
     from cij.util import c_
-    shapes = [(3, ["c11", "C12", "c_44", "C_1123"], True), (2, ["C44", "c11"], False)]
+    # (rows, component columns, lattice block, label of the volume column -- it is only a label, whatever it is called)
+    shapes = [(3, ["c11", "C12", "c_44", "C_1123"], True, "V"), (2, ["C44", "c11"], False, "V_bohr3"), (2, ["c11", "c12"], False, "V0")]
     if tier != "quick":
-        shapes += [(4, ["c11", "c22", "c33", "c12", "c13", "c23", "c44", "c55", "c66", "c15", "c25", "c35", "c46"], True), (1, ["c11"], False)]
-    for nv, cols, lattice in shapes:
-        name = "read_elast_data[nv=%d, columns=%s, lattice block=%s]" % (nv, cols, lattice)
+        shapes += [(4, ["c11", "c22", "c33", "c12", "c13", "c23", "c44", "c55", "c66", "c15", "c25", "c35", "c46"], True, "Volume"), (1, ["c11"], False, "V(bohr^3)")]
+    for nv, cols, lattice, vlabel in shapes:
+        name = "read_elast_data[nv=%d, columns=%s %s, lattice block=%s]" % (nv, vlabel, cols, lattice)
         ctx = new_context()
         tk = Tokens(ctx)
-        lines = ["comment line with words 1 2 3", "%s %d %s" % (tk.new("tVref"), nv, tk.new("tMass")), "V " + " ".join(cols)]
+        lines = ["comment line with words 1 2 3", "%s %d %s" % (tk.new("tVref"), nv, tk.new("tMass")), vlabel + " " + " ".join(cols)]
         vol = [tk.new("tV%d" % i) for i in range(nv)]
         tab = [[tk.new("t_%d_%d" % (i, j)) for j in range(len(cols))] for i in range(nv)]
         for i in range(nv):
@@ -74,7 +75,7 @@ def static_table(chk, ed, tier, rng):
                 data = X.run_single_path(lambda: ed.read_elast_data(fn), name=name)
         except Exception as e:
             chk.obligation(name, "sat", kind="reader-structure", detail="raises %s: %s" % (type(e).__name__, e))
-            replay_static(chk, ed, nv, cols, lattice, rng, "raises %s: %s" % (type(e).__name__, e))
+            replay_static(chk, ed, nv, cols, lattice, rng, "raises %s: %s" % (type(e).__name__, e), vlabel=vlabel)
             continue
         finally:
             os.unlink(fn)
@@ -104,14 +105,14 @@ def static_table(chk, ed, tier, rng):
             fails.append("lattice parameters invented")
         chk.obligation(name, "unsat" if not fails else "sat", seconds=round(time.time() - t0, 3), kind="reader-structure", detail=fails[:3])
         if fails:
-            replay_static(chk, ed, nv, cols, lattice, rng, fails[0])
+            replay_static(chk, ed, nv, cols, lattice, rng, fails[0], vlabel=vlabel)
     chk.sample(dict(file=["comment", "tVref 3 tMass", "V c11 C12 c_44 C_1123", "tV0 t_0_0 t_0_1 ...", "...", "lattice parameters", "tL_0_0 tL_0_1 tL_0_2"]))
 
 
 NUMBER_SPELLINGS = {"plain": "%.3f", "exponent": "%.6e", "EXPONENT": "%.6E", "signed": "%+.3f", "many digits": "%.11f"}
 
 
-def replay_static(chk, ed, nv, cols, lattice, rng, what):
+def replay_static(chk, ed, nv, cols, lattice, rng, what, vlabel="V"):
     """Concrete replay of the static-table reader, once per spelling of the numbers that float() accepts (the symbolic run works on opaque
     tokens, so a reader that looks *into* the numeric text fails there for every token; which real spelling it mis-reads is found here)."""
     from cij.util import c_
@@ -124,7 +125,7 @@ def replay_static(chk, ed, nv, cols, lattice, rng, what):
         vals = [[float(t) for t in row] for row in vals_t]
         vol = [float(t) for t in vol_t]
         lat = [[float(t) for t in row] for row in lat_t]
-        lines = ["comment", "%s %d %s" % (vol_t[0], nv, mass_t), "V " + " ".join(cols)]
+        lines = ["comment", "%s %d %s" % (vol_t[0], nv, mass_t), vlabel + " " + " ".join(cols)]
         lines += [" ".join([vol_t[i]] + vals_t[i]) for i in range(nv)]
         if lattice:
             lines += ["lattice"] + [" ".join(lat_t[i]) for i in range(nv)]
@@ -134,8 +135,8 @@ def replay_static(chk, ed, nv, cols, lattice, rng, what):
         try:
             d = ed.read_elast_data(fn)
         except Exception as e:
-            chk.violation("read_elast_data:raises", "read_elast_data raises %s: %s on a well-formed table (columns %s, numbers written in '%s' form)"
-                          % (type(e).__name__, e, cols, style), dict(lines=lines))
+            chk.violation("read_elast_data:raises", "read_elast_data raises %s: %s on a well-formed table (columns %s %s, numbers written in '%s' form)"
+                          % (type(e).__name__, str(e)[:80], vlabel, cols, style), dict(lines=lines))
             return
         finally:
             os.unlink(fn)
